@@ -34,7 +34,7 @@ def build(ctx, leaves):
     roles = [r for r in roles if r.ok]
     acc = [x["t"] for x in leaves if x["accf"]]      # conforming in the full sense (counts match)
     rng.shuffle(acc)
-    nacc = 160 if ctx.quick else len(acc)
+    nacc = 120 if ctx.quick else len(acc)
     for n, names in enumerate(acc[:nacc]):
         cands = [r for r in roles if r.supports(names)]
         if not cands:
@@ -44,7 +44,7 @@ def build(ctx, leaves):
         base = toks[3:-1]
         # every position: behind MsgType (0) ... before CheckSum (len)
         allpos = [p for p in range(len(base) + 1) if p == 0 or dc.ftype(r.s, int(base[p - 1][0])) != "LENGTH"]
-        pick = allpos if not ctx.quick else rng.sample(allpos, min(len(allpos), 4))
+        pick = allpos if not ctx.quick else rng.sample(allpos, min(len(allpos), 3))
         for p in pick:
             cases.append((r.which, r.mt, base, [p], ["cover", r.mt] + names))
     nrand = 2 if ctx.quick else 12
@@ -65,7 +65,7 @@ def run(ctx):
     if not r["ok"]:
         raise core.Infra("ideal acceptor violates %s" % r["violated"])
     ctx.add_model(r, "MC_Decode.tla", "MC_Decode_export.cfg", ["AcceptsExactlyConforming", "RetainsAll", "input export"])
-    leaves = tlc.leaves(r["out"])
+    leaves = sorted(tlc.leaves(r["out"]), key=lambda x: (len(x["t"]), x["t"]))
     if sum(1 for x in leaves if x["accf"]) < 100:
         raise core.Infra("export produced too few accepted sequences")
     ctx.tick("model")
